@@ -342,6 +342,8 @@ func fetchRepositoryIndex(ctx context.Context, u string, etag string, opts *inde
 func parseRepositoryIndex(ctx context.Context, u string, keys map[string][]byte, arch string, b []byte, opts *indexOpts) (*APKIndex, error) { //nolint:gocyclo
 	_, span := otel.Tracer("go-apk").Start(ctx, "parseRepositoryIndex")
 	defer span.End()
+	// the signature that verified, if signatures are checked
+	var verifiedSignature []byte
 	// validate the signature
 	if shouldCheckSignatureForIndex(u, arch, opts) {
 		if len(keys) == 0 {
@@ -436,6 +438,7 @@ func parseRepositoryIndex(ctx context.Context, u string, keys map[string][]byte,
 			}
 			if err := sign.RSAVerifyDigest(indexDigest[sig.DigestAlgorithm], sig.DigestAlgorithm, sig.Signature, keys[sig.KeyID]); err == nil {
 				verified = true
+				verifiedSignature = sig.Signature
 				break
 			} else {
 				clog.FromContext(ctx).Warnf("failed to verify signature for keyfile %s: %v", sig.KeyID, err)
@@ -444,14 +447,21 @@ func parseRepositoryIndex(ctx context.Context, u string, keys map[string][]byte,
 		if !verified {
 			return nil, errors.New("signature verification failed for repository index, for all provided keys")
 		}
+		// Only the bytes covered by the verified signature are parsed below. The signature
+		// member itself is not signed, so nothing in it (e.g. a PAX extended header, which the
+		// tar reader would apply to the first signed entry) may influence how the index is read.
+		b = indexData
 	}
 	// with a valid signature, convert it to an ApkIndex
 	index, err := IndexFromArchive(io.NopCloser(bytes.NewReader(b)))
 	if err != nil {
 		return nil, fmt.Errorf("unable to read convert repository index bytes to index struct: %w", err)
 	}
+	if verifiedSignature != nil {
+		index.Signature = verifiedSignature
+	}
 
-	return index, err
+	return index, nil
 }
 
 type indexOpts struct {
